@@ -22,6 +22,9 @@
 
 using namespace std::chrono_literals;
 
+// part (b): net_processing histories (checks/C39/partb.cpp, added by w-crypto); adds to the evidence counters
+void c39_part_b(bool big, unsigned workers);
+
 namespace {
 
 int NTX = 3, NNODE = 3;
@@ -278,6 +281,7 @@ int run()
 {
     auto& E = vx::ev();
     const bool big = vx::thorough();
+    const unsigned partb_workers = vx::ncpu(); // before VERIF_JOBS is forced to 1 for part (a)
     setenv("VERIF_JOBS", "1", 1); // NodeClock mock time is process-global
     int depth = big ? 10 : 8;
     if (vx::ctx().args.size() >= 1) depth = atoi(vx::ctx().args[0].c_str());
@@ -345,6 +349,8 @@ int run()
     E.assume("only the PrivateBroadcast object is explored; the net_processing side of the property (getdata after inv, private-broadcast connections) is not covered");
     if (bfs.complete && vx::rep().violations == 0)
         for (auto& g : gates) if (g.v == 0) { printf("HARNESS-ERROR vacuous: never observed '%s'\n", g.n); vx::write_evidence(); return 2; }
+    // ---- part (b): the real PeerManager on a regtest node (fork-per-transition search, see partb.cpp)
+    c39_part_b(big, partb_workers);
     return vx::finish();
 }
 
